@@ -482,3 +482,16 @@ Definition late_of (ct : ctable) (rules : list vrule) (s : st) (a : nat) : bool 
                       | VIdSuffix k suf => subclass ct (k_cls c) k && ends_with suf (k_id c)
                       end) rules
   end.
+
+(* ---------- the tree under an address, as a tree of Model/Node.v (design 2.2) ----------
+   children have smaller addresses than their parent, so the fuel [S a] is never exhausted (Proofs/RegistryReify.v) *)
+Fixpoint reify (hp : list cell) (fuel : nat) (a : nat) : node :=
+  match fuel with
+  | 0 => Node a [] ONo [] []
+  | S f => match nth_error hp a with
+           | None => Node a [] ONo [] []
+           | Some c => Node a (k_cls c) (k_org c) (k_props c)
+                         (map (fun k => (fst k, (fst (snd k), map (reify hp f) (snd (snd k))))) (k_kids c))
+           end
+  end.
+Definition reify_st (s : st) (a : nat) : node := reify (heap s) (S a) a.
